@@ -215,8 +215,9 @@ def gen(rng, n_books=None, n_formulas=None, forms=None, whole_col=False,
     for b, bk in enumerate(desc['books']):
         for s, sh in enumerate(bk['sheets']):
             const_zone.append((b, s))
+            extent = rng.choice((ROWS, ROWS, 5, 3))   # sheets of different extents
             for c in CONST_COLS:
-                for r in range(1, ROWS + 1):
+                for r in range(1, extent + 1):
                     if rng.random() < 0.25:
                         continue        # unpopulated
                     k = rng.choice(kinds)
